@@ -346,7 +346,7 @@ pub(crate) fn change_pass(private_key: String, env_pass: bool) -> Result<(), any
         format!("PrivateKey = {}", new_sk.as_str())
     };
 
-    println!("{}", key_output);
+    writeln!(std::io::stdout(), "{}", key_output)?;
 
     Ok(())
 }
@@ -363,7 +363,7 @@ pub(crate) fn extract_pub(private_key: String, env_pass: bool) -> Result<(), any
     let pk = sk.to_public()?;
     let epk = Keyring::encode_public_key(&pk);
 
-    println!("PublicKey = {}", epk.as_str());
+    writeln!(std::io::stdout(), "PublicKey = {}", epk.as_str())?;
 
     Ok(())
 }
